@@ -286,13 +286,7 @@ func ruleGetTemplate(c *Ctx, r *Repo, ip *packages.Package) {
 	// default template-schema
 	cp := r.Pkg("config")
 	if nd := FuncDecl(cp, "NewDefaultKoanf"); nd != nil {
-		ok := false
-		ast.Inspect(nd.Body, func(n ast.Node) bool {
-			if kv, isKV := n.(*ast.KeyValueExpr); isKV && types.ExprString(kv.Key) == "TemplateSchema" {
-				ok = types.ExprString(kv.Value) == `addr("{{.Template}}.schema.json")`
-			}
-			return true
-		})
+		ok := defaultConfigFields(cp, nd)["TemplateSchema"] == `config.addr("{{.Template}}.schema.json")`
 		c.Check(ok, "R12.3", "default|template-schema", r.Pos(nd.Pos()), "default template-schema = {{.Template}}.schema.json", "the default template-schema is not '{{.Template}}.schema.json'")
 	}
 }
